@@ -51,6 +51,12 @@ def gen_cases(rng, n, maxdepth):
             else:
                 val = IR.gen_sat(rng, mh)
             out.append({'vexps': vs, 'metahint': mh, 'value': val})
+            if rng.random() < 0.4:
+                # a second validated hint: the object is also checked below Union[first, second] in item positions
+                mh2 = rng.choice([['any', 'object'], ['cls', 'int'], ['cls', 'str'], ['cls', 'UserA']])
+                vs2 = [IR.gen_vexp(rng, rng.randint(0, 2)) for _ in range(rng.choice([1, 1, 2]))]
+                if [mh2, vs2] != [mh, vs]:
+                    out[-1]['second'] = {'metahint': mh2, 'vexps': vs2}
     # IsAttr of one attribute name nested in itself with a sibling operand after it (the temporaries holding the two attribute
     # values must stay apart), on attribute bags nested the same way
     def bag(**kw):
@@ -71,6 +77,36 @@ def gen_cases(rng, n, maxdepth):
                 val = json.loads(json.dumps(val).replace('"x"', '"_t"').replace('"y"', '"x"').replace('"_t"', '"y"'))
             out.append({'vexps': [v], 'metahint': mh, 'value': val})
     return out
+
+
+def model_eval_union(ctx, tag, cases):
+    """per case with a second validated hint: the model verdicts of [x] : List[Union[h, h2]], List[Union[h2, h]],
+    {'k': x} : Dict[str, Union[h, h2]] and (0, x) : Tuple[int, Union[h, h2]]"""
+    idx = [i for i, c in enumerate(cases) if c.get('second')]
+    if not idx:
+        return {}
+    rows = []
+    for i in idx:
+        c = cases[i]
+        h = ['annot', c['metahint'], c['vexps']]
+        h2 = ['annot', c['second']['metahint'], c['second']['vexps']]
+        rows.append('(%s, %s, %s)' % (IR.coq_hint(h), IR.coq_hint(h2), IR.coq_val(c['value'])))
+    text = HEADER + '''
+Definition evu (row : hint * hint * pyval) : list nat :=
+  let '(h, h2, x) := row in
+  let vd (hh : hint) (y : pyval) := match verdict 0 no_preds (check_expr {| is_random := true |} hh) y with
+                                    | Ok true => 1 | Ok false => 0 | Exc _ => 2 end in
+  [vd (HCont s_List (HUnion [h; h2])) (VCont c_list [x]); vd (HCont s_List (HUnion [h2; h])) (VCont c_list [x]);
+   vd (HMap m_Dict (HCls c_str) (HUnion [h; h2])) (VMap c_dict [(VStr "k", x)]);
+   vd (HTuple [HCls c_int; HUnion [h; h2]]) (VCont c_tuple [VInt 0; x])].
+Definition rows := %s.
+Eval vm_compute in (List.concat (map evu rows)).
+''' % coq_list(['\n ' + r for r in rows])
+    path = os.path.join(ctx.workdir, f'c12u_{tag}.v')
+    with open(path, 'w') as f:
+        f.write(text)
+    flat = parse_nat_list(coqc_file(path))
+    return {i: flat[4 * k:4 * k + 4] for k, i in enumerate(idx)}
 
 
 def model_eval(ctx, tag, cases):
@@ -123,7 +159,8 @@ def run(ctx):
             part = cases[lo:lo + 300]
             obs = run_impl('c12_impl.py', {'cases': part})
             mod = model_eval(ctx, str(lo), part)
-            for c, o, m in zip(part, obs, mod):
+            modu = model_eval_union(ctx, str(lo), part)
+            for pi, (c, o, m) in enumerate(zip(part, obs, mod)):
                 ctx.case([c['vexps'], c['metahint'], c['value']], max(vdepth(v) for v in c['vexps']) >= 1,
                          sample={'validators': c['vexps'], 'metahint': c['metahint'], 'value': c['value'],
                                  'is_valid': o['is_valid'], 'root': o['root']})
@@ -138,6 +175,13 @@ def run(ctx):
                     problems.append('is_valid differs from the boolean meaning')
                 if enc(o['root']) != root or enc(o['nested']) != nested or enc(o['mapped']) != mapped:
                     problems.append('is_bearable differs from the model verdict')
+                if pi in modu:
+                    want = modu[pi]
+                    for (v, d), w in zip(o['union'], want):
+                        if enc(v) != w or enc(d) != w:
+                            problems.append('below a union of two validated hints in an item position: is_bearable %r, '
+                                            'die_if_unbearable %r, model %r' % (v, d, w))
+                            break
                 if o['root'] is False and root == 0:
                     first_bad = [i for i, b in enumerate(means) if b == 0]
                     if first_bad and isinstance(o['named'], int) and o['named'] not in (first_bad[0], -1):
